@@ -16,6 +16,16 @@ Theorem C18_tables_ok : proxy_tables_ok = true /\ auth_table_ok = true.
 Proof. exact (conj proxy_tables_ok_true auth_table_ok_true). Qed.
 Print Assumptions C18_tables_ok.
 
+(* ... and the generated tables are PROTECTIVE ("hardened" is about the values too): nosniff;
+   X-Frame-Options DENY or SAMEORIGIN; X-XSS-Protection starting with 1; HSTS max-age of at least six
+   months; for sso-auth also a Content-Security-Policy with default-src and without "*"/unsafe-*, and a
+   Referrer-Policy that is not unsafe-url / no-referrer-when-downgrade. A weakened table in the source
+   regenerates Gen_Headers.v and breaks this obligation; a strengthened one (DENY, longer max-age, an
+   extra header) does not. *)
+Theorem C18_tables_protective : proxy_tables_protective = true /\ auth_table_protective = true.
+Proof. exact (conj proxy_tables_protective_true auth_table_protective_true). Qed.
+Print Assumptions C18_tables_protective.
+
 (* For every outcome class the proxy produces itself for a configured upstream (sign-in redirect,
    401/403/500 pages, XHR JSON, callback outcomes, sign-out, certs, robots, favicon 404,
    /oauth2/auth, clean-path redirect, 502, 503, and the https redirect), every configuration,
@@ -233,3 +243,10 @@ Theorem C18_monitor_accepts_model : forall cfg q o,
   end.
 Proof. exact monitor_accepts_model. Qed.
 Print Assumptions C18_monitor_accepts_model.
+
+(* ... and likewise for sso-auth, at handler level and for the whole process (timeout 503 included). *)
+Theorem C18_auth_monitor_accepts_model : forall fired ops,
+  forallb aop_ok ops = true ->
+  holds_auth (proj_hdr (auth_handle AT ops)) = true /\ holds_auth (proj_hdr (auth_process AT fired ops)) = true.
+Proof. exact auth_monitor_accepts_model. Qed.
+Print Assumptions C18_auth_monitor_accepts_model.
